@@ -75,7 +75,7 @@ def gen_spec(seed, index, tier):
     w = World.generate(seed, max_atoms=rng.choice([8, 16, 24, 32]))
     has_nac = bool(CRYSTALS[w.name].get("nac"))
     obj = dict(
-        dataset=rng.choice([None, "t1", "t1", "t1_noforce", "t2", "t2_noforce"]),
+        dataset=rng.choice([None, "t1", "t1", "t1_noforce", "t1_partial", "t2", "t2_noforce"]),
         energies=rng.random() < 0.4,
         fc=rng.choice([None, "full", "compact"]),
         ext_symbols=rng.random() < 0.25 and len(set(CRYSTALS[w.name]["symbols"])) > 1,
@@ -207,8 +207,15 @@ def _build(w, obj, scale=1.0, nac_scale=1.0):
             n["factor"] = units["nac_factor"]
             ph.nac_params = n
     d = obj["dataset"]
-    if d in ("t1", "t1_noforce"):
+    if d in ("t1", "t1_noforce", "t1_partial"):
         ph.generate_displacements(distance=0.03)
+        if d == "t1_partial":
+            # a calculation in progress: only the first displaced supercell has its forces yet
+            ds_ = ph.dataset
+            ds_["first_atoms"][0]["forces"] = np.array(w.type1_forces(ph, fc_full)[0], dtype="double", order="C")
+            for d_ in ds_["first_atoms"][1:]:
+                d_.pop("forces", None)
+            ph.dataset = ds_
         if d == "t1":
             ph.forces = w.type1_forces(ph, fc_full)
             if obj["energies"]:
